@@ -353,9 +353,18 @@ impl<'ast> ShallowRecord<'ast> {
         let outer = ctxt.clone();
         let mut inner = ctxt;
 
+        // The apparent type of a field defined as a variable is looked up in the environment.
+        // Inside a recursive record, this variable might refer to another field of the record,
+        // which shadows a variable of the same name in the outer environment: the type of the
+        // latter must not be used then.
+        let mut lookup_env = outer.type_env.clone();
+        for (id, _) in self.stat_fields.iter() {
+            lookup_env.insert(id.ident(), mk_uniftype::dynamic());
+        }
+
         for (id, field) in self.stat_fields.iter() {
             let field_type = UnifType::from_apparent_type(
-                field.apparent_type(state.ast_alloc, Some(&outer.type_env), Some(state.resolver)),
+                field.apparent_type(state.ast_alloc, Some(&lookup_env), Some(state.resolver)),
                 &outer.term_env,
             );
 
